@@ -164,9 +164,13 @@ def run_ktmc(check, tier, nshards=NCPU, extra_env=None, timeout=None):
             p2 = subprocess.run([KTMC, "run", check, tier, str(i), str(nshards), out2], env=env2,
                                 stdout=subprocess.PIPE, stderr=subprocess.STDOUT)
             if p2.returncode == 0 and os.path.exists(out2):
-                # not reproducible: nondeterministic crash -> machinery failure, not a verdict
-                sys.stderr.write(logtxt)
-                raise Machinery("ktmc %s shard %d died (rc=%s) but the re-run completed" % (check, i, rc))
+                # not reproducible (allocation failure or a kill under memory pressure, typically): no verdict can rest
+                # on it; the re-run did the whole of the shard's work, so its report stands, and the incident is named
+                r2 = json.load(open(out2))
+                r2.setdefault("notes", []).append("ktmc %s shard %d ended abnormally once (rc=%s) and completed when run again in journalling mode; the report of the second run is used" % (check, i, rc))
+                r2.setdefault("counters", {})["engine.shards_run_again_after_abnormal_end"] = 1
+                reps.append(r2)
+                continue
             case = open(jpath).read() if os.path.exists(jpath) else "(no journal)"
             tail = p2.stdout.decode("utf-8", "replace")[-1500:]
             r = empty_report()
